@@ -82,6 +82,12 @@ Theorem C14_generated_autodelete_guard : autodelete_turn_checks_the_queue = true
 Proof. reflexivity. Qed.
 Print Assumptions C14_generated_autodelete_guard.
 
+(* a delivery does not take the queue table lock while it holds its consumer's status lock (a queue.delete takes them in
+   the other order): the lock order that deadlocked the virtual host in F76, read off the source on every run *)
+Theorem C14_generated_no_table_lock_in_delivery : delivery_takes_no_table_lock = true.
+Proof. reflexivity. Qed.
+Print Assumptions C14_generated_no_table_lock_in_delivery.
+
 Theorem C14_generated_dead_peer_detection : heartbeat_always_arms_timeout = true /\ reader_sets_read_deadline = true.
 Proof. split; reflexivity. Qed.
 Print Assumptions C14_generated_dead_peer_detection.
